@@ -127,6 +127,13 @@ def worker(args):
             else:
                 parts = [x.strip() for x in it.split("|")]
                 fen, mates = parts[0], parts[1].split()
+                # checkmate ends the game before any 50-move claim: a mate in one stays 'mate 1' for every half-move
+                # clock <= 99, in particular 99, where the mated side could claim a draw were it not mated (seeded C04-E)
+                ff = fen.split()
+                if len(ff) == 6 and ff[3] == "-" and rnd.random() < .5:
+                    ff[4] = str(99 if rnd.random() < .6 else rnd.randint(60, 99))
+                    fen = " ".join(ff)
+                    res["m1_high_clock"] = res.get("m1_high_clock", 0) + 1
                 depths = list(range(1, 15)) if rnd.random() < .25 else rnd.sample(range(1, 15), 3)
             for d in depths:
                 if rnd.random() < .1:
@@ -216,7 +223,7 @@ def run(c):
         jobs.append((c.seed * 100000 + 60000 + i, "mate1", ch, classes))
     for i, ch in enumerate(chunks(forced, 20)):
         jobs.append((c.seed * 100000 + 80000 + i, "forced", ch, classes))
-    tot = dict(searches=0, claims=0, unchecked=0, m1=0, slow=0)
+    tot = dict(searches=0, claims=0, unchecked=0, m1=0, slow=0, m1_high_clock=0)
     fens = set()
     with concurrent.futures.ThreadPoolExecutor(max_workers=core.NCPU) as ex:
         for r in ex.map(worker, jobs):
@@ -231,13 +238,13 @@ def run(c):
     c.distinct = len(fens)
     c.rule = ("one case = one depth-limited search (depth 1..14) at full strength on (a) a random legal placement of a <=4-men pawnless class (oracle: independent retrograde solution of the class, checked by the "
               "forward Bellman equations in this run), (b) an attack-biased position where refchess' exhaustive solver found a forced mate in <=3, (c) a position with a mate in one "
-              "(25% of them searched at every depth 1..14), (d) a position with a check that leaves exactly one legal reply - half of them built so that the reply is a pawn "
+              "(25% of them searched at every depth 1..14; half of them with half-move clock 60..99), (d) a position with a check that leaves exactly one legal reply - half of them built so that the reply is a pawn "
               "double step onto the checking line - searched before or after the check (a generator that loses the reply turns the check into a false mate); Hash in {1,16}, Threads in {1,2,4}, UseNullMove on/off, 3 networks; every positive 'mate N' line that is not an "
               "upper bound, the final best move and every final 'mate -N' of a completed search are judged. distinct_nontrivial = distinct root positions searched")
     c.extra.update(mate_claims_judged=tot["claims"] - tot["unchecked"], mate_claims_unchecked_no_oracle=tot["unchecked"],
-                   mate_in_one_searches=tot["m1"], slow_searches_stopped=tot["slow"], mate_in_one_kinds=kinds_seen, only_reply_roots=len(forced), only_reply_kinds=reply_kinds, tb_roots=len(tb_roots), solver_roots=len(solver), exhaustive=False)
+                   mate_in_one_searches=tot["m1"], mate_in_one_roots_with_half_move_clock_60_to_99=tot["m1_high_clock"], slow_searches_stopped=tot["slow"], mate_in_one_kinds=kinds_seen, only_reply_roots=len(forced), only_reply_kinds=reply_kinds, tb_roots=len(tb_roots), solver_roots=len(solver), exhaustive=False)
     c.assumptions += ["DTM oracle: independent retrograde solution (no engine code), self-checked in this run; refchess solver exhaustive up to 3 moves (4 with a node cap, else counted as unchecked)",
-                      "draw claims (repetition/50 moves) are ignored by the solver: roots have half-move clock 0 and no history"]
+                      "draw claims (repetition/50 moves) are ignored by the solver: roots have half-move clock 0 and no history, except half of the mate-in-one roots, which get clock 60..99 (60%: 99) - checkmate by the next move precedes any 50-move claim"]
     if tot["claims"] - tot["unchecked"] == 0:
         raise core.HarnessError("no mate claim judged")
     for k in ("block-pawn2", "block-piece", "capture", "king-move"):
